@@ -10,6 +10,7 @@ import (
 	"fmt"
 	"io"
 	"net"
+	"os"
 	"strconv"
 	"strings"
 	"sync"
@@ -251,6 +252,7 @@ type srvConn struct {
 	waiting bool
 	exited  bool
 	sent    [][]byte
+	rdDead  time.Time
 }
 
 func newSrvConn() *srvConn { s := &srvConn{}; s.cond = sync.NewCond(&s.mu); return s }
@@ -270,6 +272,16 @@ func (s *srvConn) ReadFrom(p []byte) (int, net.Addr, error) {
 		}
 		s.waiting = true
 		s.cond.Broadcast()
+		if !s.rdDead.IsZero() {
+			d := time.Until(s.rdDead)
+			if d <= 0 {
+				return 0, nil, os.ErrDeadlineExceeded
+			}
+			t := time.AfterFunc(d, func() { s.mu.Lock(); s.cond.Broadcast(); s.mu.Unlock() })
+			s.cond.Wait()
+			t.Stop()
+			continue
+		}
 		s.cond.Wait()
 	}
 }
@@ -290,8 +302,14 @@ func (s *srvConn) Close() error {
 	return nil
 }
 func (s *srvConn) LocalAddr() net.Addr              { return strAddr("10.0.0.1:4433") }
-func (s *srvConn) SetDeadline(time.Time) error      { return nil }
-func (s *srvConn) SetReadDeadline(time.Time) error  { return nil }
+func (s *srvConn) SetDeadline(t time.Time) error    { return s.SetReadDeadline(t) }
+func (s *srvConn) SetReadDeadline(t time.Time) error {
+	s.mu.Lock()
+	s.rdDead = t
+	s.cond.Broadcast()
+	s.mu.Unlock()
+	return nil
+}
 func (s *srvConn) SetWriteDeadline(time.Time) error { return nil }
 
 func (s *srvConn) deliver(data []byte, from net.Addr) {
@@ -410,6 +428,10 @@ func execServer(desc string) string {
 		InitialRetransmitTimeout: time.Hour,
 		MaxRetransmitTimeout:     time.Hour,
 	}
+	if rto := hx.KVInt(desc, "rto"); rto > 0 {
+		cfg.InitialRetransmitTimeout = time.Duration(rto) * time.Millisecond
+		cfg.MaxRetransmitTimeout = 2 * cfg.InitialRetransmitTimeout
+	}
 	conns := make([]*srvConn, 2)
 	var wg sync.WaitGroup
 	start := func(i int) {
@@ -439,6 +461,29 @@ func execServer(desc string) string {
 	flight := "-"
 	for _, st := range strings.Split(stepsS, ",") {
 		p := strings.Split(st, ":")
+		if len(p) == 3 && p[1] == "w" { // the peer stays silent for p[2] milliseconds
+			ci := 0
+			if p[0] == "b" {
+				ci = 1
+			}
+			if conns[ci] == nil {
+				start(ci)
+			}
+			sc := conns[ci]
+			before := sc.nSent()
+			ms, _ := strconv.Atoi(p[2])
+			time.Sleep(time.Duration(ms) * time.Millisecond)
+			var types, sizes []int
+			alerts := 0
+			for _, d := range sc.sentFrom(before) {
+				t, a := parseDatagram(d)
+				types = append(types, t...)
+				alerts += a
+				sizes = append(sizes, len(d))
+			}
+			outs = append(outs, fmt.Sprintf("%d/%s/%s/%d/0/%d", len(sizes), joinInts(types), joinInts(sizes), alerts, atomic.LoadInt64(&keyOps)))
+			continue
+		}
 		if len(p) != 5 && len(p) != 6 {
 			return "badstep=" + st
 		}
@@ -636,6 +681,49 @@ func randAddr(r *hx.Rand) []byte {
 	}
 }
 
+// byteVariants returns h with one byte changed, for every byte position of every covered field
+// (version 2, random 32, every session id byte, every byte of the cipher-suite list, every
+// compression byte).
+func byteVariants(r *hx.Rand, h hello) []hello {
+	var out []hello
+	flip := func() byte { return byte(1) << uint(r.Intn(8)) }
+	for i := 0; i < 2; i++ {
+		t := h
+		t.vers ^= uint16(flip()) << uint(8*(1-i))
+		out = append(out, t)
+	}
+	for i := range h.random {
+		t := h
+		t.random = append([]byte(nil), h.random...)
+		t.random[i] ^= flip()
+		out = append(out, t)
+	}
+	for i := range h.sid {
+		t := h
+		t.sid = append([]byte(nil), h.sid...)
+		t.sid[i] ^= flip()
+		out = append(out, t)
+	}
+	for i := 0; i < 2*len(h.suites); i++ {
+		t := h
+		t.suites = append([]uint16(nil), h.suites...)
+		t.suites[i/2] ^= uint16(flip()) << uint(8*(1-i%2))
+		out = append(out, t)
+	}
+	for i := range h.comp {
+		t := h
+		t.comp = append([]byte(nil), h.comp...)
+		t.comp[i] ^= flip()
+		out = append(out, t)
+	}
+	return out
+}
+
+// realistic hello: the four TLCP suites (all share the high byte 0xe0), 32-byte session id
+func realisticHello(r *hx.Rand) hello {
+	return hello{vers: 0x0101, random: r.Bytes(32), sid: r.Bytes(32), suites: []uint16{0xe053, 0xe013, 0xe051, 0xe011}, comp: []byte{0}}
+}
+
 func cookieCase(secret, addr []byte, h hello, tsecret, taddr []byte, th hello, mut string) string {
 	return fmt.Sprintf("kind=cookie secret=%s addr=%s h=%s tsecret=%s taddr=%s th=%s mut=%s",
 		hx.Hex(secret), hx.Hex(addr), h, hx.Hex(tsecret), hx.Hex(taddr), th, mut)
@@ -677,6 +765,16 @@ func genHook(o hx.Opts, emit func(string)) {
 	small := hello{vers: 0x0101, random: make([]byte, 32)}
 	emit(cookieCase(sec, []byte("1.2.3.4:5"), small, sec, []byte("1.2.3.4:5"), small, "-"))
 
+	// every single byte of every covered field, on a realistic hello (also the swap of two suites
+	// that differ only in their low byte)
+	rh := realisticHello(r)
+	for _, th := range byteVariants(r, rh) {
+		emit(cookieCase(sec, []byte("10.0.0.2:5000"), rh, sec, []byte("10.0.0.2:5000"), th, "-"))
+	}
+	sw := rh
+	sw.suites = []uint16{0xe013, 0xe053, 0xe051, 0xe011}
+	emit(cookieCase(sec, []byte("10.0.0.2:5000"), rh, sec, []byte("10.0.0.2:5000"), sw, "-"))
+
 	n := 120 * o.Scale
 	if o.Tier == "thorough" {
 		n = 3000 * o.Scale
@@ -690,6 +788,20 @@ func genHook(o hx.Opts, emit func(string)) {
 		h := randHello(r)
 		// the issued triple
 		emit(cookieCase(secret, addr, h, secret, addr, h, "-"))
+		// every single byte of every covered field (each 4th base, and every realistic one)
+		if i%4 == 0 || i%4 == 1 {
+			bh := h
+			if i%4 == 1 {
+				bh = realisticHello(r)
+				if r.Bool() {
+					bh.sid = nil
+				}
+				bh.suites = bh.suites[:2+r.Intn(3)]
+			}
+			for _, th := range byteVariants(r, bh) {
+				emit(cookieCase(secret, addr, bh, secret, addr, th, "-"))
+			}
+		}
 		// every covered field changed
 		for f := 0; f < 5; f++ {
 			th := h
@@ -915,6 +1027,22 @@ func genServer(o hx.Opts, emit func(string)) {
 	// configured secret: stateless, the same cookie is valid on another connection for the same address
 	emit(serverCase(sec, []byte("10.0.0.2:5000"), []byte("10.0.0.2:5000"), []hello{g}, []string{"a:0:-:p:1", "b:0:k0:p:1"}))
 
+	// every single byte of every covered field against the real server: the cookie of hello 0 is
+	// refused for each variant, then accepted for hello 0 itself
+	{
+		base := realisticHello(r)
+		base.sid = r.Bytes(8)
+		base.suites = []uint16{0xe053, 0xe013, 0xe011}
+		hs := append([]hello{base}, byteVariants(r, base)...)
+		steps := []string{"a:0:-:p:1"}
+		for i := 1; i < len(hs); i++ {
+			steps = append(steps, fmt.Sprintf("a:%d:k0:p:1", i))
+		}
+		steps = append(steps, "a:0:k0:p:1")
+		emit(serverCase(nil, []byte("10.0.0.2:5000"), []byte("10.0.0.3:5000"), hs, steps))
+	}
+	// one cookieless hello, then the (spoofed) peer stays silent for many retransmission periods
+	emit(serverCase(nil, []byte("10.0.0.2:5000"), []byte("10.0.0.3:5000"), []hello{g}, []string{"a:0:-:p:1", "a:w:400", "a:0:r:p:1", "a:w:200", "a:0:k1:p:1"}) + " rto=20")
 	// a first hello with a version that cannot be served (TLS 1.2, SSL, 0.x) is refused with one alert
 	tls := g
 	tls.vers = 0x0303
@@ -969,6 +1097,15 @@ func genServer(o hx.Opts, emit func(string)) {
 		}
 		_, sh := shiftPair(pa, base)
 		hs = append(hs, sh) // index 6: the shifted hello for pa minus its last byte
+		bv := byteVariants(r, base)
+		for k := 0; k < 6; k++ { // indices 7..12: single-byte variants (suite bytes favoured)
+			if k < 3 {
+				hs = append(hs, bv[2+32+r.Intn(2*len(base.suites))])
+			} else {
+				hs = append(hs, hx.Pick(r, bv))
+			}
+		}
+		silent := r.Chance(10)
 		var steps []string
 		hvrs := 0
 		// owner[i] = (conn, hello) the i-th HelloVerifyRequest was issued for
@@ -1013,13 +1150,18 @@ func genServer(o hx.Opts, emit func(string)) {
 				i, _ := strconv.Atoi(ref[1:])
 				ow := owner[i]
 				samePeer := ow.c == c || bytes.Equal(pa, pb)
-				if ow.h == hi && samePeer && (ow.c == c || len(cfg) > 0) {
+				// (compare contents: two table entries may be the same single-byte variant)
+				if hs[ow.h].String() == hs[hi].String() && samePeer && (ow.c == c || len(cfg) > 0) {
 					final = true
 				}
 				// on the unrepaired tree the shifted pair is accepted as well: keep it last too
 				if len(cfg) > 0 && ((ow.h == 0 && hi == 6) || (ow.h == 6 && hi == 0)) && ow.c != c {
 					final = true
 				}
+			}
+			if silent && s > 0 && r.Chance(30) {
+				steps = append(steps, fmt.Sprintf("%s:w:%d", c, 60+r.Intn(60)))
+				continue
 			}
 			if !final && fr == 1 && r.Chance(15) {
 				// several copies of the hello in one datagram (never for a cookie a correct server accepts)
@@ -1045,7 +1187,11 @@ func genServer(o hx.Opts, emit func(string)) {
 				owner = append(owner, own{c, hi})
 			}
 		}
-		emit(serverCase(cfg, pa, pb, hs, steps))
+		cs := serverCase(cfg, pa, pb, hs, steps)
+		if silent {
+			cs += " rto=10"
+		}
+		emit(cs)
 	}
 }
 
